@@ -321,20 +321,24 @@ func c06Boundary(n int) bool {
 func init() {
 	vs.Register(vs.Prop[c06Len]{
 		Name: "C06/lengths",
-		Rule: "every length n in 0..L (quick L=1100: tree heights 0-2; thorough L=33900: height 3), reached by Conj from empty and by Pop from L; at each n every operation (Len, Index, iterator, Assoc, Conj, Pop, SubVector, slices of slices, vals.Index/Len/Iterate) at boundary positions incl. out-of-range; a case is one (n, direction); non-trivial = n>=1; class 'boundary' = n within 2 of a tail/leaf/height boundary",
+		Rule: "every length n in 0..1100 (tree heights 0-2; thorough: 0..2200 and 32700..32900, the window where the tree reaches height 3), reached by Conj from empty and by Pop from the top of the range; at each n every operation (Len, Index, iterator, Assoc, Conj, Pop, SubVector, slices of slices, vals.Index/Len/Iterate) at boundary positions incl. out-of-range; a case is one (n, direction); non-trivial = n>=1; class 'boundary' = n within 2 of a tail/leaf/height boundary",
 		Enum: func(tier string, yield func(c06Len) bool) {
-			L := 1100
+			ranges := [][2]int{{0, 1100}}
 			if tier == "thorough" {
-				L = 33900
+				// all lengths through height 2, and the window around the
+				// length where the tree reaches height 3 (32 800)
+				ranges = [][2]int{{0, 2200}, {32700, 32900}}
 			}
-			for n := 0; n <= L; n++ {
-				if !yield(c06Len{N: n, Dir: "conj"}) {
-					return
+			for _, r := range ranges {
+				for n := r[0]; n <= r[1]; n++ {
+					if !yield(c06Len{N: n, Dir: "conj"}) {
+						return
+					}
 				}
-			}
-			for n := L; n >= 0; n-- {
-				if !yield(c06Len{N: n, Dir: "pop", Top: L}) {
-					return
+				for n := r[1]; n >= r[0]; n-- {
+					if !yield(c06Len{N: n, Dir: "pop", Top: r[1]}) {
+						return
+					}
 				}
 			}
 		},
@@ -524,7 +528,7 @@ func init() {
 			}
 			return "plain", false
 		},
-		Quick: 300, Thorough: 2000,
+		Quick: 300, Thorough: 2000, FuzzSecs: 45,
 		Known: []vs.Known[c06Hist]{{Key: "C06:subvector-of-subvector-unchecked", Case: c06Hist{Base: 5, Ops: []c06Op{
 			{K: "sub", Src: 0, A: 16, B: 2}, // [1..5]
 			{K: "sub", Src: 1, A: 0, B: 13}, // (0, n+2) of the slice: must be rejected
